@@ -49,16 +49,25 @@ func (c concSpec) name() string {
 	return "conc/" + strings.Join(parts, " || ")
 }
 
+// warmUp is translated (outside the scheduler) before every execution and before every sequential reference run: if the
+// translator keeps any state between calls, every execution then starts from the same state, so an execution stays a
+// function of its schedule (the engine's replay assumption) and leaked state shows up as a wrong result, not as a
+// machinery failure.
+var warmUp = hcase{Text: "MATCH (w:NodeKind2)<-[:EdgeKind1]-(:NodeKind1) WHERE w:NodeKind1 OR w:NodeKind2 RETURN w", Variant: "nil-map"}
+
 func (c concSpec) scenario() *sched.Scenario {
 	// sequential reference results, computed outside the scheduler with an identical mapper
 	want := make([]string, len(c.Queries))
 	for i, q := range c.Queries {
-		want[i] = translateCanonical(q, &xlate.Mapper{KindMapper: &yieldingMapper{inner: xlate.NewMapper().KindMapper}})
+		m := &xlate.Mapper{KindMapper: &yieldingMapper{inner: xlate.NewMapper().KindMapper}}
+		_ = translateCanonical(warmUp, m)
+		want[i] = translateCanonical(q, m)
 	}
 	return &sched.Scenario{
 		Name: c.name(),
 		New: func() (func(s *sched.Scheduler), func(r *sched.Result) (string, *core.Violation)) {
 			shared := &xlate.Mapper{KindMapper: &yieldingMapper{inner: xlate.NewMapper().KindMapper}}
+			_ = translateCanonical(warmUp, shared)
 			got := make([]string, len(c.Queries))
 			main := func(s *sched.Scheduler) {
 				for i, q := range c.Queries {
